@@ -24,3 +24,13 @@
     relay->src_condition = XV_DIR == 0 ? &xr->cond0 : &xr->cond1; \
     relay->dst_condition = XV_DIR == 0 ? &xr->cond1 : &xr->cond0; \
     relay->err_cb = xv_fwd_cb; relay->err_cb_data = xr
+
+/* relay-level jobs: both directions wired the way xrelay_create() does it; the user's callback is the environment's */
+#define XV_XRELAY_SETUP \
+    struct xrelay *xr = malloc(sizeof(struct xrelay)); \
+    __CPROVER_assume(xr != NULL); \
+    xr->fwd0.src_conn = XV_CONN(0); xr->fwd0.dst_conn = XV_CONN(1); xr->fwd1.src_conn = XV_CONN(1); xr->fwd1.dst_conn = XV_CONN(0); \
+    xr->fwd0.src_condition = &xr->cond0; xr->fwd0.dst_condition = &xr->cond1; \
+    xr->fwd1.src_condition = &xr->cond1; xr->fwd1.dst_condition = &xr->cond0; \
+    xr->fwd0.err_cb = xrelay_fwd_term; xr->fwd0.err_cb_data = xr; xr->fwd1.err_cb = xrelay_fwd_term; xr->fwd1.err_cb_data = xr; \
+    xr->err_cb = xv_relay_cb
